@@ -140,67 +140,73 @@ theorem reqCands_subset (U : Universe) (hw : CandsKnown U) (r : Req) (c : Nat) (
   · next p hp => exact hw _ p hp c this
   · cases this
 
+/-- a model of the encoding yields a valid selection (the solvables it makes true) -/
+theorem encodeAll_sel (U : Universe) (P : Problem) (hw : CandsKnown U) (a : Nat → Bool)
+    (ha : evalCnf a (encodeAll U P) = true) : Valid U P.hard (U.allSolvs.filter a) [] := by
+  unfold encodeAll at ha
+  rw [evalCnf_append, evalCnf_append, Bool.and_eq_true, Bool.and_eq_true] at ha
+  obtain ⟨⟨hroot, hsolv⟩, hpair⟩ := ha
+  rw [depClauses_iff U a [] (evalClause_nil a)] at hroot
+  rw [pairClauses_iff] at hpair
+  have hsolv' : ∀ s ∈ U.allSolvs, evalCnf a (solvClauses U s) = true := by
+    intro s hs
+    simp only [evalCnf, List.all_flatMap, List.all_eq_true] at hsolv
+    simp only [evalCnf, List.all_eq_true]
+    exact hsolv s hs
+  refine ⟨?_, ?_, ?_, ?_⟩
+  · refine ⟨fun r hr => ?_, fun vs hvs t ht hm => ?_⟩
+    · obtain ⟨c, hc, hac⟩ := hroot.1 r hr
+      exact ⟨c, hc, List.mem_filter.mpr ⟨reqCands_subset U hw r c hc, hac⟩⟩
+    · have := hroot.2 vs hvs t ht
+      rw [(List.mem_filter.mp hm).2] at this; cases this
+  · intro s hs
+    obtain ⟨hsm, has⟩ := List.mem_filter.mp hs
+    obtain ⟨⟨reqs, cons, hd, h1, h2⟩, _⟩ := (solvClauses_iff U a s).mp (hsolv' s hsm) has
+    refine ⟨reqs, cons, hd, fun r hr => ?_, fun vs hvs t ht hm => ?_⟩
+    · obtain ⟨c, hc, hac⟩ := h1 r hr
+      exact ⟨c, hc, List.mem_filter.mpr ⟨reqCands_subset U hw r c hc, hac⟩⟩
+    · have := h2 vs hvs t ht
+      rw [(List.mem_filter.mp hm).2] at this; cases this
+  · intro s hs _
+    obtain ⟨hsm, has⟩ := List.mem_filter.mp hs
+    exact ((solvClauses_iff U a s).mp (hsolv' s hsm) has).2
+  · intro s hs t ht hn
+    obtain ⟨hsm, has⟩ := List.mem_filter.mp hs
+    obtain ⟨htm, hat⟩ := List.mem_filter.mp ht
+    exact hpair s hsm t htm has hat hn
+
+/-- a valid selection is a model of the encoding -/
+theorem encodeAll_of_valid (U : Universe) (P : Problem) (sel : List Nat) (hv : Valid U P.hard sel []) :
+    evalCnf (fun s => decide (s ∈ sel)) (encodeAll U P) = true := by
+  obtain ⟨hroot, hdeps, hex, hone⟩ := hv
+  unfold encodeAll
+  rw [evalCnf_append, evalCnf_append, Bool.and_eq_true, Bool.and_eq_true]
+  refine ⟨⟨?_, ?_⟩, ?_⟩
+  · rw [depClauses_iff U _ [] (evalClause_nil _)]
+    refine ⟨fun r hr => ?_, fun vs hvs t ht => ?_⟩
+    · obtain ⟨c, hc, hcs⟩ := hroot.1 r hr
+      exact ⟨c, hc, decide_eq_true hcs⟩
+    · exact decide_eq_false (hroot.2 vs hvs t ht)
+  · simp only [evalCnf, List.all_flatMap, List.all_eq_true]
+    intro s _
+    have := (solvClauses_iff U (fun s => decide (s ∈ sel)) s).mpr (by
+      intro has
+      have hs : s ∈ sel := of_decide_eq_true has
+      obtain ⟨reqs, cons, hd, h1, h2⟩ := hdeps s hs
+      refine ⟨⟨reqs, cons, hd, fun r hr => ?_, fun vs hvs t ht => ?_⟩, hex s hs (by simp)⟩
+      · obtain ⟨c, hc, hcs⟩ := h1 r hr
+        exact ⟨c, hc, decide_eq_true hcs⟩
+      · exact decide_eq_false (h2 vs hvs t ht))
+    simp only [evalCnf, List.all_eq_true] at this
+    exact this
+  · rw [pairClauses_iff]
+    intro s _ t _ has hat hn
+    exact hone s (of_decide_eq_true has) t (of_decide_eq_true hat) hn
+
 /-- **The reference encoding is satisfiable exactly when the hard problem is solvable.** -/
 theorem encodeAll_iff (U : Universe) (P : Problem) (hw : CandsKnown U) :
-    (∃ a, evalCnf a (encodeAll U P) = true) ↔ Solvable U P := by
-  constructor
-  · rintro ⟨a, ha⟩
-    unfold encodeAll at ha
-    rw [evalCnf_append, evalCnf_append, Bool.and_eq_true, Bool.and_eq_true] at ha
-    obtain ⟨⟨hroot, hsolv⟩, hpair⟩ := ha
-    rw [depClauses_iff U a [] (evalClause_nil a)] at hroot
-    rw [pairClauses_iff] at hpair
-    have hsolv' : ∀ s ∈ U.allSolvs, evalCnf a (solvClauses U s) = true := by
-      intro s hs
-      simp only [evalCnf, List.all_flatMap, List.all_eq_true] at hsolv
-      simp only [evalCnf, List.all_eq_true]
-      exact hsolv s hs
-    refine ⟨U.allSolvs.filter a, ?_, ?_, ?_, ?_⟩
-    · refine ⟨fun r hr => ?_, fun vs hvs t ht hm => ?_⟩
-      · obtain ⟨c, hc, hac⟩ := hroot.1 r hr
-        exact ⟨c, hc, List.mem_filter.mpr ⟨reqCands_subset U hw r c hc, hac⟩⟩
-      · have := hroot.2 vs hvs t ht
-        rw [(List.mem_filter.mp hm).2] at this; cases this
-    · intro s hs
-      obtain ⟨hsm, has⟩ := List.mem_filter.mp hs
-      obtain ⟨⟨reqs, cons, hd, h1, h2⟩, _⟩ := (solvClauses_iff U a s).mp (hsolv' s hsm) has
-      refine ⟨reqs, cons, hd, fun r hr => ?_, fun vs hvs t ht hm => ?_⟩
-      · obtain ⟨c, hc, hac⟩ := h1 r hr
-        exact ⟨c, hc, List.mem_filter.mpr ⟨reqCands_subset U hw r c hc, hac⟩⟩
-      · have := h2 vs hvs t ht
-        rw [(List.mem_filter.mp hm).2] at this; cases this
-    · intro s hs _
-      obtain ⟨hsm, has⟩ := List.mem_filter.mp hs
-      exact ((solvClauses_iff U a s).mp (hsolv' s hsm) has).2
-    · intro s hs t ht hn
-      obtain ⟨hsm, has⟩ := List.mem_filter.mp hs
-      obtain ⟨htm, hat⟩ := List.mem_filter.mp ht
-      exact hpair s hsm t htm has hat hn
-  · rintro ⟨sel, hroot, hdeps, hex, hone⟩
-    refine ⟨fun s => decide (s ∈ sel), ?_⟩
-    unfold encodeAll
-    rw [evalCnf_append, evalCnf_append, Bool.and_eq_true, Bool.and_eq_true]
-    refine ⟨⟨?_, ?_⟩, ?_⟩
-    · rw [depClauses_iff U _ [] (evalClause_nil _)]
-      refine ⟨fun r hr => ?_, fun vs hvs t ht => ?_⟩
-      · obtain ⟨c, hc, hcs⟩ := hroot.1 r hr
-        exact ⟨c, hc, decide_eq_true hcs⟩
-      · exact decide_eq_false (hroot.2 vs hvs t ht)
-    · simp only [evalCnf, List.all_flatMap, List.all_eq_true]
-      intro s _
-      have := (solvClauses_iff U (fun s => decide (s ∈ sel)) s).mpr (by
-        intro has
-        have hs : s ∈ sel := of_decide_eq_true has
-        obtain ⟨reqs, cons, hd, h1, h2⟩ := hdeps s hs
-        refine ⟨⟨reqs, cons, hd, fun r hr => ?_, fun vs hvs t ht => ?_⟩, hex s hs (by simp)⟩
-        · obtain ⟨c, hc, hcs⟩ := h1 r hr
-          exact ⟨c, hc, decide_eq_true hcs⟩
-        · exact decide_eq_false (h2 vs hvs t ht))
-      simp only [evalCnf, List.all_eq_true] at this
-      exact this
-    · rw [pairClauses_iff]
-      intro s _ t _ has hat hn
-      exact hone s (of_decide_eq_true has) t (of_decide_eq_true hat) hn
+    (∃ a, evalCnf a (encodeAll U P) = true) ↔ Solvable U P :=
+  ⟨fun ⟨a, ha⟩ => ⟨_, encodeAll_sel U P hw a ha⟩, fun ⟨sel, hv⟩ => ⟨_, encodeAll_of_valid U P sel hv⟩⟩
 
 /-- **`decideSolvable` decides `Solvable`** (for universes whose listed candidates have entries). -/
 theorem decideSolvable_iff (U : Universe) (P : Problem) (hw : CandsKnown U) :
